@@ -1,9 +1,9 @@
 #!/bin/bash
-# Round-5 convenience: confirm a change left in /tmp/seed5/<ID>, run the given
+# Round-5 convenience: confirm a change left in ${SEED_ROOT:-/tmp/seed5}/<ID>, run the given
 # quick checks against it, remove the scratch worktree.
 # usage: seed_r5.sh <ID> <name> <demo-crate> "<crates to test>" <check ids...>
 ID=$1; NAME=$2; DC=$3; CR=$4; shift 4
 cd /verif
-SEED_ROOT=/tmp/seed5 tools/seed_confirm.sh $ID $NAME $DC "$CR" 2>&1 | tail -9
+SEED_ROOT=${SEED_ROOT:-/tmp/seed5} tools/seed_confirm.sh $ID $NAME $DC "$CR" 2>&1 | tail -9
 tools/seed_run.sh $NAME quick "$@" 2>&1 | cut -c1-600
-git -C /repo worktree remove --force /tmp/seed5/$ID
+git -C /repo worktree remove --force ${SEED_ROOT:-/tmp/seed5}/$ID
